@@ -63,7 +63,7 @@ def gen(rnd, tier):
         block = rnd.choice(eligible_blocks(ffname, maxsize))
     peptide = block in aa and rnd.random() < 0.4
     case = {'ff': ffname, 'block': block, 'permute': rnd.random() < 0.6,
-            'scramble': rnd.choice(['none', 'none', 'all', 'hydrogens', 'swap-same-element']),
+            'scramble': rnd.choice(['none', 'none', 'all', 'hydrogens', 'swap-same-element', 'mirror', 'mirror', 'swap-any']),
             'remove': rnd.choice([0, 0, 1, 1, 2, 3]), 'remove_mode': rnd.choice(['leaf', 'any', 'bonded-pair']),
             'extra': rnd.choice([0, 0, 0, 1, 2]), 'extra_kind': rnd.choice(['H', 'O', 'foreign']),
             'neighbours': [rnd.choice(aa) for _ in range(rnd.randint(1, 3))] if peptide else [],
@@ -77,7 +77,7 @@ def gen(rnd, tier):
                      'extra': 0, 'swap_order': rnd.random() < 0.8, 'borrow_fraction': rnd.choice([1.0, 1.0, 0.5, 0.3]),
                      'order_swaps': rnd.choice([0, 0, 1, 2])})
         return case
-    if len(ff.blocks[block]) > 22 and case['scramble'] in ('all', 'swap-same-element'):
+    if len(ff.blocks[block]) > 22 and case['scramble'] in ('all', 'swap-same-element', 'swap-any'):
         case['scramble'] = 'hydrogens'       # keeps the exponential search within the watchdog most of the time
     return case
 
@@ -173,6 +173,38 @@ def build(case):
             for an, n in target.items():
                 if borrow_iso[an] != an and rnd.random() < case.get('borrow_fraction', 1.0):
                     mol.nodes[n]['atomname'] = borrow_iso[an]
+    elif mode in ('mirror', 'swap-any'):
+        # 'mirror': the names follow an automorphism of the *uncoloured* residue graph that maps some atom onto an atom of another
+        # element (HSP ring mirror, N-HN <-> C=O ...): every bond still joins the same pair of names, only the elements
+        # disagree with the names.  'swap-any' (also the fall-back): two atoms of different elements exchange names.
+        import networkx as nx
+        sub = nx.Graph(mol.subgraph(list(target.values())))
+        nodes = sorted(sub.nodes)
+        sigma = None
+        if mode == 'mirror':
+            pairs = [(u, v) for u in nodes for v in nodes if u != v and sub.nodes[u]['element'] != sub.nodes[v]['element']
+                     and sub.degree(u) == sub.degree(v)]
+            rnd.shuffle(pairs)
+            for u, v in pairs[:12]:
+                g1, g2 = nx.Graph(sub.edges), nx.Graph(sub.edges)
+                g1.add_nodes_from(nodes)
+                g2.add_nodes_from(nodes)
+                nx.set_node_attributes(g1, {n: int(n == u) for n in nodes}, 'mark')
+                nx.set_node_attributes(g2, {n: int(n == v) for n in nodes}, 'mark')
+                gm = nx.isomorphism.GraphMatcher(g1, g2, node_match=lambda a, c: a['mark'] == c['mark'])
+                if gm.is_isomorphic():
+                    sigma = dict(gm.mapping)
+                    break
+        if sigma is None:
+            het = [(u, v) for u in nodes for v in nodes if u < v and sub.nodes[u]['element'] != sub.nodes[v]['element']]
+            if het:
+                u, v = rnd.choice(het)
+                sigma = {n: n for n in nodes}
+                sigma[u], sigma[v] = v, u
+        if sigma:
+            canon = {n: mol.nodes[n]['atomname'] for n in nodes}
+            for n in nodes:
+                mol.nodes[n]['atomname'] = canon[sigma[n]]
     elif mode == 'swap-same-element':
         by_el = {}
         for an, n in target.items():
